@@ -103,6 +103,11 @@ func (e *Exec) callOut(ins ssa.Instruction, what string, resT *types.Tuple, st *
 // funcValueCall: call through a function value whose target is unknown.
 func (e *Exec) funcValueCall(ins ssa.Instruction, c *ssa.CallCommon, fv FuncV, args []Value, st *State) Value {
 	name := calleeText(c)
+	if fc := e.C.Funcs["fnparam:"+funcKey(e.fn)+"."+name]; fc != nil {
+		fc.Used = true
+		e.ghostAdd(st, "invoked:"+name, 1)
+		return e.contractCall(ins, "fnparam:"+funcKey(e.fn)+"."+name, fc, c.Signature(), args, sigParamNames(c.Signature()), st, nil)
+	}
 	e.siteAsserts(ins, name, args, st, "before", nil)
 	// ghost: count invocations of function-typed parameters / captured variables
 	e.ghostAdd(st, "invoked:"+name, 1)
